@@ -350,8 +350,11 @@ def s5f5 (s : St) (alids : List Id) : Except Err (List AlarmRow) :=
 
 def s5f7 (s : St) : List AlarmRow := (s.alarms.filter (·.enabled)).map (fun a => alarmRow a.id a)
 
-/-- `set_alarm(alid)` for a Python `int`/`str`: the S5F1 reports it sends, or the `ValueError` for an unknown id -/
-def setAlarm (s : St) (i : Id) : St × Except Err (List AlarmRow) :=
+/-- `set_alarm(alid)` for a Python `int`/`str`: the S5F1 reports it sends, or the `ValueError` for an unknown id.
+`replied` is what `send_and_waitfor_response` returns for the S5F1 (an S5F2 within T3, or `None`): the code does not look
+at it, the alarm is latched either way. -/
+def setAlarm (s : St) (i : Id) (replied : Bool := true) : St × Except Err (List AlarmRow) :=
+  let _response : Option Unit := if replied then some () else none
   match s.findAlarm i with
   | none => (s, .error .valueError)
   | some a =>
@@ -360,7 +363,8 @@ def setAlarm (s : St) (i : Id) : St × Except Err (List AlarmRow) :=
       let emits := if a.enabled then [⟨a.code ||| 128, i, a.text⟩] else []
       ({ s with alarms := updFirst (fun a => a.id = i) (fun a => { a with set := true }) s.alarms }, .ok emits)
 
-def clearAlarm (s : St) (i : Id) : St × Except Err (List AlarmRow) :=
+def clearAlarm (s : St) (i : Id) (replied : Bool := true) : St × Except Err (List AlarmRow) :=
+  let _response : Option Unit := if replied then some () else none
   match s.findAlarm i with
   | none => (s, .error .valueError)
   | some a =>
@@ -375,7 +379,7 @@ inductive Op
   | s1f3 (ids : List Id) | s1f11 (ids : List Id)
   | s2f13 (ids : List Id) | s2f15 (req : List (Id × Ecv)) | s2f29 (ids : List Id)
   | s5f3 (aled : Nat) (alid : Id) | s5f5 (alids : List Id) | s5f7
-  | setAlarm (i : Id) | clearAlarm (i : Id)
+  | setAlarm (i : Id) (replied : Bool) | clearAlarm (i : Id) (replied : Bool)
   | setSv (i : Id) (v : Val)
 deriving DecidableEq, Repr
 
@@ -398,8 +402,8 @@ def step (s : St) : Op → St × Out
   | .s5f3 aled alid => let r := s5f3 s aled alid; (r.1, .ack r.2)
   | .s5f5 alids => (s, .alarms (s5f5 s alids))
   | .s5f7 => (s, .alarms (.ok (s5f7 s)))
-  | .setAlarm i => let r := setAlarm s i; (r.1, .emits r.2)
-  | .clearAlarm i => let r := clearAlarm s i; (r.1, .emits r.2)
+  | .setAlarm i rp => let r := setAlarm s i rp; (r.1, .emits r.2)
+  | .clearAlarm i rp => let r := clearAlarm s i rp; (r.1, .emits r.2)
   | .setSv i v => ({ s with svs := updFirst (fun sv => sv.id = i) (fun sv => { sv with value := v }) s.svs }, .nothing)
 
 def run (s : St) : List Op → St
